@@ -73,6 +73,9 @@ pub fn bodies(big: usize) -> Vec<Vec<u8>> {
         b"HTTP/1.1 200 \r\nServer: fake\r\nContent-Length: 3\r\n\r\nabc".to_vec(),
         vec![0x00, 0xff, 0x0d, 0x0a, 0x80],
         (0..big).map(|i| (i * 7 % 251) as u8).collect(),
+        // same lengths as two of the above, different bytes
+        b"y".to_vec(),
+        b"12345".to_vec(),
     ]
 }
 const SERVERS: [&str; 3] = ["srv", "My Server/1.0", "a-very-long-server-identification-token/1.0.0-rc1+build.20260101.abcdef0123456789abcdef0123456789abcdef01 (x86_64-unknown-linux-gnu; firecracker-compatible; verification build with a name longer than any fixed-size staging buffer would reasonably expect to hold in one piece)"];
@@ -378,7 +381,7 @@ pub fn run(thorough: bool) -> Vec<Part> {
         return vec![];
     }
     let mut part = Part::new("C05", "builder-states-r", "model_checking");
-    part.assume("breadth-first search over Response builder states: 2 versions x 11 status codes x all call sequences of length <= N (N = 4 quick, 5 thorough) over set_body (6 bodies: empty, 1 byte, contains CRLFCRLF, looks like a response, NUL/0xFF/CRLF bytes, large), set_content_type x2, set_deprecation, set_encoding, set_server x3 (one of 280 bytes), set_allow x4 (one with 40 methods), allow_method x3, de-duplicated on the pair (Debug rendering of the Response, reference model state); a sweep over body lengths (every length 0..4200 plus boundaries up to 64 KiB quick; every length 0..65536 thorough); every state is serialized into sinks accepting 1, 2, 3, 7, 64 bytes per write, 6 mixed patterns and 6 patterns with interrupted writes (EINTR) between short ones and re-read by an independent response reader, alone and followed by other bytes");
+    part.assume("breadth-first search over Response builder states: 2 versions x 11 status codes x all call sequences of length <= N (N = 4 quick, 5 thorough) over set_body (8 bodies: empty, 1 byte, contains CRLFCRLF, looks like a response, NUL/0xFF/CRLF bytes, large, and two more of the same lengths as earlier ones with different bytes), set_content_type x2, set_deprecation, set_encoding, set_server x3 (one of 280 bytes), set_allow x4 (one with 40 methods), allow_method x3, de-duplicated on the pair (Debug rendering of the Response, reference model state); a sweep over body lengths (every length 0..4200 plus boundaries up to 64 KiB quick; every length 0..65536 thorough); every state is serialized into sinks accepting 1, 2, 3, 7, 64 bytes per write, 6 mixed patterns and 6 patterns with interrupted writes (EINTR) between short ones and re-read by an independent response reader, alone and followed by other bytes");
     part.assume("the default Content-Type and Server values are not judged (the statement names the lines, not their defaults); set_content_length is exercised only by the 'unless explicitly set' side check; header text containing CR/LF passed to set_server is outside the property");
     let sys = Sys { bodies: bodies(if thorough { 65536 } else { 9000 }), max_calls: if thorough { 5 } else { 4 } };
     let limits = Limits { max_states: 12_000_000, max_secs: if thorough { 3000.0 } else { 100.0 }, ..Default::default() };
@@ -386,6 +389,58 @@ pub fn run(thorough: bool) -> Vec<Part> {
     record(&mut part, "builder-states", &st);
     for (v, _) in &st.violations {
         part.violations.push(v.clone());
+    }
+    // the bytes of a response are a function of its builder calls alone: the same calls before and
+    // after other parts of the API were used on the same thread (a router with its own identity
+    // and content type serving requests, the request parser, another response)
+    {
+        let small = Sys { bodies: bodies(64), max_calls: 2 };
+        let mut paths: Vec<Vec<Call>> = vec![];
+        for v in 0..2u8 {
+            for sc in 0..STATUSES.len() as u8 {
+                paths.push(vec![Call::New(v, sc)]);
+                for c in [Call::SetBody(1), Call::SetBody(0), Call::ContentType(0), Call::Deprecation, Call::Encoding, Call::Server(0), Call::SetAllow(2), Call::AllowMethod(1)] {
+                    paths.push(vec![Call::New(v, sc), c]);
+                }
+            }
+        }
+        let render = |paths: &Vec<Vec<Call>>| -> Vec<Vec<u8>> {
+            paths
+                .iter()
+                .map(|p| {
+                    let mut b = vec![];
+                    if let (Some(r), _) = small.build(p) {
+                        let _ = r.write_all(&mut b);
+                    }
+                    b
+                })
+                .collect()
+        };
+        let before = render(&paths);
+        {
+            struct Hd;
+            impl micro_http::EndpointHandler<()> for Hd {
+                fn handle_request(&self, _r: &micro_http::Request, _a: &()) -> Response {
+                    let mut r = Response::new(Version::Http10, StatusCode::NoContent);
+                    r.set_server("handler");
+                    r
+                }
+            }
+            let mut router: micro_http::HttpRoutes<()> = micro_http::HttpRoutes::new("another-identity".to_string(), "/api".to_string());
+            let _ = router.add_route(Method::Get, "/x".to_string(), Box::new(Hd));
+            for raw in [&b"GET /api/x HTTP/1.1\r\n\r\n"[..], &b"PUT /nowhere HTTP/1.0\r\nContent-Length: 2\r\nAccept: text/plain\r\n\r\nab"[..]] {
+                if let Ok(req) = micro_http::Request::try_from(raw, None) {
+                    let mut b = vec![];
+                    let _ = router.handle_http_request(&req, &()).write_all(&mut b);
+                }
+            }
+        }
+        let after = render(&paths);
+        part.add("evaluations", 2 * paths.len() as u64);
+        part.set("history_independence_paths", json!(paths.len()));
+        if let Some(i) = (0..paths.len()).find(|i| before[*i] != after[*i]) {
+            part.violations.push(Violation { signature: "history-dependent-bytes".into(), detail: format!("the calls {:?} serialise to {:?} on a fresh thread but to {:?} after a router with its own identity served requests on the same thread", paths[i], util::show(&before[i][..before[i].len().min(120)]), util::show(&after[i][..after[i].len().min(120)])), replay: json!({"engine": "none"}) });
+        }
     }
     // side check: explicit set_content_length on 100/204 and removal elsewhere
     let mut side = 0u64;
